@@ -354,6 +354,15 @@ def _get_only_mach_data(data: List[DragDataPoint]) -> List[float]:
      "        _cMinimumVelocity = self._config.cMinimumVelocity\n",
      "        _cMinimumVelocity = min(self._config.cMinimumVelocity, 1000.0)\n",
      "minimum-velocity limits above 1000 fps are silently capped"),
+    ("c04-height-limits-skipped-when-moving-backwards", "C04", TC,
+     """                    or range_vector.y < _cMaximumDrop
+                    or self.alt0 + range_vector.y < _cMinimumAltitude
+""",
+     """                    or (velocity_vector.x > 0 and range_vector.y < _cMaximumDrop)
+                    or (velocity_vector.x > 0 and self.alt0 + range_vector.y < _cMinimumAltitude)
+""",
+     "pure non-termination: a projectile moving backwards (elevation beyond vertical, or blown back by a head wind) is "
+     "never tested against the height limits and falls for ever"),
 ]
 
 
